@@ -1,5 +1,6 @@
 (* C11 — stream management: resume only with the previous id and count; drop stale state. *)
 From Coq Require Import List ZArith NArith Bool.
+From XV Require Model.XmlText Model.Codec Model.XmlPrint Model.XmlLex Proofs.CodecP Gen.Generated.
 From XV Require Import Lib.Sx Model.Session Model.SessionSpec Proofs.SessionP Proofs.SessionSpecP
   Proofs.SessionSmP Proofs.SessionHistP Proofs.SessionEvP.
 Import ListNotations.
@@ -236,3 +237,34 @@ Print Assumptions C11_history.
 Print Assumptions C11_stale_never_presented_again.
 Print Assumptions C11_enabled_stores_id.
 Print Assumptions C11_stream_management_wish_kept.
+
+(* ---- the request on the wire (the written <resume/> is C01's encoding of the value:
+   Model/Codec.v VSMResume, Model/XmlPrint.v; that the bytes Session.resume writes denote
+   that element is the correspondence of this check, which reads them with an independent
+   XML reader).  Whatever characters the id the server once handed out contains - quotes,
+   apostrophes, ampersands, angle brackets, text that looks like an entity or character
+   reference, white space, non-ASCII -: a reader of the written bytes recovers exactly that
+   id and that count, so "the client asks to resume only with the id it obtained" holds on
+   the wire and not only in the client's memory. ---- *)
+Theorem C11_resume_on_the_wire : forall (reg : Codec.registry) (previd : str) (h : N),
+  Codec.reg_ok reg = true -> XmlText.all_legal previd = true -> Codec.fits64 h = true ->
+  exists t, XmlLex.parse (XmlPrint.print (Codec.enc (Codec.VSMResume previd (Some h)))) = Some t /\
+            Codec.dec reg Codec.TSMResume t = Some (Codec.VSMResume previd (Some h)).
+Proof.
+  intros reg previd h Hreg Hid Hh.
+  destruct (CodecP.roundtrip_wire reg (Codec.VSMResume previd (Some h)) Hreg) as [t [v' [Hp [Hd [Hv _]]]]].
+  - cbn [Codec.wf_value Codec.opt_fits64]. rewrite Hid, Hh. reflexivity.
+  - reflexivity.
+  - exists t. split; [exact Hp|]. rewrite <- Hv. exact Hd.
+Qed.
+
+(* non-trivial instance: previd made of a, ampersand, l, t, semicolon, b, apostrophe, double quote, less-than, ampersand; h = 2^32 *)
+Example C11_resume_on_the_wire_example :
+  let id := [97; 38; 108; 116; 59; 98; 39; 34; 60; 38] in
+  XmlText.all_legal id = true /\
+  option_map (Codec.dec Generated.registry Codec.TSMResume)
+    (XmlLex.parse (XmlPrint.print (Codec.enc (Codec.VSMResume id (Some 4294967296)))))
+  = Some (Some (Codec.VSMResume id (Some 4294967296))).
+Proof. vm_compute. split; reflexivity. Qed.
+
+Print Assumptions C11_resume_on_the_wire.
